@@ -62,6 +62,7 @@ class Opts:
         self.phase_f = 0.5  # f_max is multiplied by this when phases scale load values
         self.zero_loads = True
         self.source_rs = True  # False: every Source gets rs = 0
+        self.similar_sources = False  # all sources within x0.8..1.25 of the first one
         self.leaf_loads = True
         self.avoid = ()
         for k, v in kw.items():
@@ -191,6 +192,11 @@ class _Gen:
                 v = draw(st.one_of(st.sampled_from(SRC_VOLT), logf(0.8, 400.0)))
                 if o.negative and self.chance(1, 4):
                     v = -v
+                if o.similar_sources:
+                    if not hasattr(self, "_v0"):
+                        self._v0 = v
+                    else:
+                        v = self._v0 * draw(st.floats(0.8, 1.25))
                 n["params"]["vo"] = v
                 vin[name] = v
                 f[name] = self.frac(fmax)
